@@ -41,6 +41,13 @@ def _events(n, L):
     return out
 
 
+TWINS = [("1", "True"), ("1", "1.0"), ("0", "False"), ("0.0", "-0.0"), ("2", "2.0"), ("HCF('a', 0)", "HCF('a', 3)"), ("(1, 2)", "(True, 2.0)"),
+         ("Decimal('1.0')", "Decimal('1.00')"), ("NT2(1, 2)", "(1, 2)")]
+TWIN_WRAPS = ["X", "[X]", "{X}", "frozenset({X})", "{X: 0}", "{'k': X}", "(X, 5)", "[[X], {X}]"]
+TWIN_PRE = ("from dataclasses import dataclass, field\nfrom decimal import Decimal\nfrom collections import namedtuple\n\n\n"
+            "@dataclass(unsafe_hash=True)\nclass HCF:\n    name: str\n    n: int = field(default=0, compare=False)\n\n\nNT2 = namedtuple('NT2', 'a,b')\n\n\n")
+
+
 def _cases(tier):
     cases = []
     L = _L(tier)
@@ -75,6 +82,13 @@ def _cases(tier):
                         continue
                     for prev in ("", "{'k': 1}") if op != "in" else ("", "{'k': [1]}"):
                         cases.append({"reeval": "handles", "op": op, "keys": keys, "seq": [list(x) for x in seq], "prev": prev})
+    # two call sites of one file record values that are equal and hash alike but are written differently: nothing computed
+    # for one (a cached text, a shared table keyed by value) may show up in the other
+    for a, b in TWINS:
+        for wrap in TWIN_WRAPS:
+            for op in ("==", "in", "[k]"):
+                cases.append({"reeval": "twins", "a": a, "b": b, "wrap": wrap, "op": op})
+                cases.append({"reeval": "twins", "a": b, "b": a, "wrap": wrap, "op": op})
     # the argument is an expression that yields the same (long-lived) object each time, modified in place between evaluations
     for op in ("==", "<=", "[k]"):
         for arg in ("ROW", "[ROW, 'end']", "{'k': ROW}", "(ROW, 1)", "DCR(x=ROW)", "[[ROW]]", "TABLE", "TABLE['cols']"):
@@ -278,6 +292,8 @@ def _judge_reeval(c):
         return _judge_reeval_mut(c)
     if c["reeval"] == "handles":
         return _judge_handles(c)
+    if c["reeval"] == "twins":
+        return _judge_twins(c)
     op, seq = c["reeval"], c["argseq"]
     x = {"==": "ARGS[0]", "<=": "0", "in": "ARGS[0]", "[k]": "1"}[op]
     arg = "next(it)" if op != "[k]" else "{0: next(it)}"
@@ -292,6 +308,39 @@ def _judge_reeval(c):
         return [("internal-error", r["error"]["type"] + ": " + r["error"]["msg"][:200])], ctx
     if not r["raised"]:
         return [("changed-argument-not-rejected", "argument sequence %r, no exception; file:\n%s" % (seq, ctx["after"][-300:]))], ctx
+    return [None], ctx
+
+
+def _judge_twins(c):
+    from ..drivers.inline import run_inline
+    from ..oracles.locate import snapshot_calls
+    import sys
+    import types
+
+    vals = [c["wrap"].replace("X", c["a"]), c["wrap"].replace("X", c["b"])]
+    cmp_ = {"==": "assert %s == snapshot()", "in": "assert %s in snapshot()", "[k]": "assert snapshot()['k'] == %s"}[c["op"]]
+    src = "from inline_snapshot import snapshot\n" + TWIN_PRE + "".join("def test_%d():\n    %s\n\n\n" % (i, cmp_ % v) for i, v in enumerate(vals))
+    ctx = {"src": src}
+    r = run_inline({"test_something.py": src}, ["create"])
+    ctx["after"] = r["files"].get("test_something.py", "")
+    if r["error"]:
+        return [("internal-error", r["error"]["type"] + ": " + r["error"]["msg"][:200])], ctx
+    if r["raised"]:
+        return [("test-raised", str(r["raised"])[:200])], ctx
+    mod = types.ModuleType("c14_twins")
+    sys.modules[mod.__name__] = mod
+    exec(compile(TWIN_PRE, "<twins>", "exec"), mod.__dict__)
+    calls = snapshot_calls(ctx["after"])
+    for i, v in enumerate(vals):
+        want = eval(v, mod.__dict__)
+        want = [want] if c["op"] == "in" else ({"k": want} if c["op"] == "[k]" else want)
+        try:
+            got = eval(calls[i]["arg_text"], mod.__dict__)
+        except Exception as e:  # noqa
+            return [("written-argument-not-evaluable", "%s: %s" % (calls[i]["arg_text"][:100], e))], ctx
+        if repr(got) != repr(want):
+            return [("value-of-another-call-site-written", "site %d observed %s, written snapshot(%s) = %r (the other site observed %s)" % (
+                i, v, calls[i]["arg_text"].strip()[:100], got, vals[1 - i]))], ctx
     return [None], ctx
 
 
